@@ -221,7 +221,8 @@ def replay(source, filename, universe, client_programs, steps, pool_args=None, t
     cbs = [ns["make_cb"](j, U.cb_kinds[j], rec) for j in range(U.R)]
     for i, t in enumerate(tasks):
         t.__name__ = "task{0}".format(i)
-    env = {"TIMEOUT": "timeout", "TMO": timeout_literal, "NOWAIT": 0.0, "stop_returned": False, "pool_serving": False}
+    env = {"TIMEOUT": "timeout", "TMO": timeout_literal, "NOWAIT": 0.0, "stop_returned": False, "pool_serving": False,
+           "shutdown_request": False, "socket_closed": False}
     pool = None
     if pool_args is not None:
         pool = mod.ThreadPool(U.max_threads, U.min_threads, U.queue_size,
@@ -247,11 +248,12 @@ def replay(source, filename, universe, client_programs, steps, pool_args=None, t
             baton.threads[ident] = c
             baton.grants.setdefault(c, 0)
             baton.taken.setdefault(c, 0)
-        local = dict(env)
+        local = {}
         client_ns.append((c, local))
         sys.settrace(baton.tracer)
         try:
-            exec(compile(text, "<client{0}>".format(c), "exec"), local)
+            # shared globals (pool, tasks, gates, marks declared `global`), private locals
+            exec(compile(text, "<client{0}>".format(c), "exec"), env, local)
         except BaseException as ex:  # noqa
             uncaught[c] = ex
         finally:
